@@ -80,6 +80,9 @@ func (vc *VC) callWith(fr *Frame, c *ssa.CallCommon, args []SV, fnv *SV, instr s
 func (vc *VC) callFunc(fr *Frame, callee *ssa.Function, args []SV, bind []SV, pos token.Pos) []SV {
 	org := origin(callee)
 	name := org.String()
+	if vc.eng.isOpaqueSpec(org) {
+		return vc.applyOpaque(org, args)
+	}
 	if r, ok := vc.gcIntrinsic(fr, org, args); ok {
 		return r
 	}
@@ -290,14 +293,16 @@ func (vc *VC) gcIntrinsic(fr *Frame, fn *ssa.Function, args []SV) ([]SV, bool) {
 		}
 		vc.inline++
 		vc.pure++
+		vc.binder++
 		body := vc.execFunc(cl.Fn, []SV{bv}, cl.Bind, nil, false, vc.curOld())
+		vc.binder--
 		vc.pure--
 		vc.inline--
 		q := "forall"
 		if n == "gcExists" {
 			q = "exists"
 		}
-		return []SV{scalar("(" + q + " (" + strings.Join(binders, " ") + ") " + body[0].L[0] + ")")}, true
+		return []SV{scalar(vc.mkQuant(q, binders, bv.L, body[0].L[0]))}, true
 	case "gcSum", "gcCard", "gcHas":
 		return nil, false
 	}
@@ -499,4 +504,239 @@ func (vc *VC) evalOld(fr *Frame, v ssa.Value) SV {
 		vc.st, vc.curFrame = savedSt, savedFrame
 	}
 	return vc.val(fr.oldRun, v)
+}
+
+// ---- opaque specification functions -------------------------------------------------
+//
+// An opaque spec function is an uninterpreted SMT function of its arguments and
+// of the heap arrays its body reads, with one definitional axiom whose trigger is
+// the application itself.  This keeps quantifier triggers stable.
+
+type opaqueDef struct {
+	name    string
+	fn      *ssa.Function
+	heaps   []string // heap array names read (in order)
+	hsorts  []string
+	rets    []string // SMT function name per result leaf
+	formals []string
+	fsorts  []string
+	bodies  []string // body per result leaf, over formals and |H:name| heap formals
+	nested  []*opaqueDef
+	done    map[string]bool // heap tuples for which the definitional axiom was emitted
+}
+
+func (vc *VC) applyOpaque(fn *ssa.Function, args []SV) []SV {
+	key := fn.String()
+	od := vc.opaque[key]
+	if od == nil {
+		od = vc.defineOpaque(fn)
+	}
+	if vc.rec != nil && vc.recOwner != nil && vc.recOwner != od {
+		// called from the body of another opaque function being defined
+		found := false
+		for _, n := range vc.recOwner.nested {
+			if n == od {
+				found = true
+			}
+		}
+		if !found {
+			vc.recOwner.nested = append(vc.recOwner.nested, od)
+		}
+	}
+	var terms []string
+	for _, a := range args {
+		terms = append(terms, a.L...)
+	}
+	var hterms []string
+	for i, h := range od.heaps {
+		hterms = append(hterms, vc.heapGet(h, od.hsorts[i]))
+	}
+	terms = append(terms, hterms...)
+	out := SV{}
+	for _, f := range od.rets {
+		if len(terms) == 0 {
+			out.L = append(out.L, f)
+		} else {
+			out.L = append(out.L, "("+f+" "+strings.Join(terms, " ")+")")
+		}
+	}
+	if vc.rec == nil {
+		if vc.revealed[od.name] {
+			hm := map[string]string{}
+			for i, h := range od.heaps {
+				hm[h] = hterms[i]
+			}
+			vc.opaqueAxiom(od, hm)
+		} else if vc.binder == 0 && !vc.grounding[out.L[0]] {
+			// a ground application outside any binder is always defined (one unfolding)
+			if vc.grounding == nil {
+				vc.grounding = map[string]bool{}
+			}
+			vc.grounding[out.L[0]] = true
+			vc.pure++
+			vc.inline++
+			savedStack := vc.stack
+			vc.stack = nil
+			body := vc.execFunc(fn, args, nil, nil, false, nil)
+			vc.stack = savedStack
+			vc.pure--
+			vc.inline--
+			for j := range od.rets {
+				vc.emit("(assert " + eq(out.L[j], body[0].L[j]) + ")")
+			}
+		}
+	}
+	return []SV{out}
+}
+
+func unusedOpaque(od *opaqueDef, terms, hterms []string) []SV {
+	terms = append(terms, hterms...)
+	out := SV{}
+	for _, f := range od.rets {
+		if len(terms) == 0 {
+			out.L = append(out.L, f)
+		} else {
+			out.L = append(out.L, "("+f+" "+strings.Join(terms, " ")+")")
+		}
+	}
+	return []SV{out}
+}
+
+// opaqueAxiom emits the definitional axiom of od specialised to one tuple of heap
+// terms (quantifying over scalar arguments only -- never over arrays, which the
+// solvers handle badly).
+func (vc *VC) opaqueAxiom(od *opaqueDef, heap map[string]string) {
+	var hs []string
+	for _, h := range od.heaps {
+		hs = append(hs, heap[h])
+	}
+	key := strings.Join(hs, "\x00")
+	if od.done[key] {
+		return
+	}
+	od.done[key] = true
+	subst := func(t string) string {
+		for h, term := range heap {
+			t = strings.ReplaceAll(t, quoteSym("H:"+h), term)
+		}
+		return t
+	}
+	var binders []string
+	for i := range od.formals {
+		binders = append(binders, "("+od.formals[i]+" "+od.fsorts[i]+")")
+	}
+	all := append(append([]string{}, od.formals...), hs...)
+	for j, f := range od.rets {
+		if len(all) == 0 {
+			continue
+		}
+		app := "(" + f + " " + strings.Join(all, " ") + ")"
+		if len(binders) == 0 {
+			vc.emit(fmt.Sprintf("(assert (= %s %s))", app, subst(od.bodies[j])))
+		} else {
+			vc.emit(fmt.Sprintf("(assert (forall (%s) (! (= %s %s) :pattern (%s))))", strings.Join(binders, " "), app, subst(od.bodies[j]), app))
+		}
+	}
+	for _, n := range od.nested {
+		vc.opaqueAxiom(n, heap)
+	}
+}
+
+func (vc *VC) defineOpaque(fn *ssa.Function) *opaqueDef {
+	if vc.opaque == nil {
+		vc.opaque = map[string]*opaqueDef{}
+	}
+	od := &opaqueDef{name: fn.Name(), fn: fn, done: map[string]bool{}}
+	vc.opaque[fn.String()] = od // recursion guard
+	var fargs []SV
+	for _, p := range fn.Params {
+		v := SV{}
+		for _, li := range vc.eng.layoutOf(p.Type()).L {
+			vc.n++
+			nm := fmt.Sprintf("a!%d", vc.n)
+			od.formals = append(od.formals, nm)
+			od.fsorts = append(od.fsorts, li.Sort)
+			v.L = append(v.L, nm)
+		}
+		fargs = append(fargs, v)
+	}
+	rec := &heapRec{}
+	savedSt, savedFrame, savedRec, savedStack, savedOwner := vc.st, vc.curFrame, vc.rec, vc.stack, vc.recOwner
+	vc.st = &State{Cond: "true", Heap: map[string]string{}, Alloc: "alloc0", Locks: map[string]int{}, Ghost: map[string]string{}}
+	vc.curFrame = nil
+	vc.rec = rec
+	vc.recOwner = od
+	vc.stack = nil
+	vc.pure++
+	vc.inline++
+	body := vc.execFunc(fn, fargs, nil, nil, false, nil)
+	vc.pure--
+	vc.inline--
+	vc.st, vc.curFrame, vc.rec, vc.stack, vc.recOwner = savedSt, savedFrame, savedRec, savedStack, savedOwner
+	// nested opaque functions read heaps too
+	od.heaps, od.hsorts = rec.names, rec.sorts
+	if savedRec != nil {
+		// propagate the reads to the function whose body is being recorded
+		for i, h := range od.heaps {
+			vc.heapGet(h, od.hsorts[i])
+		}
+	}
+	sorts := append(append([]string{}, od.fsorts...), od.hsorts...)
+	rls := vc.eng.layoutOf(fn.Signature.Results().At(0).Type()).L
+	for j, li := range rls {
+		f := quoteSym(fmt.Sprintf("spec:%s#%d", fn.Name(), j))
+		if len(rls) == 1 {
+			f = quoteSym("spec:" + fn.Name())
+		}
+		od.rets = append(od.rets, f)
+		od.bodies = append(od.bodies, body[0].L[j])
+		if len(sorts) == 0 {
+			vc.decls = append(vc.decls, fmt.Sprintf("(declare-const %s %s)", f, li.Sort), fmt.Sprintf("(assert (= %s %s))", f, body[0].L[j]))
+			continue
+		}
+		vc.decls = append(vc.decls, fmt.Sprintf("(declare-fun %s (%s) %s)", f, strings.Join(sorts, " "), li.Sort))
+	}
+	return od
+}
+
+type heapRec struct {
+	names []string
+	sorts []string
+}
+
+type quantInfo struct {
+	q       string
+	binders []string
+	vars    []string
+	body    string
+}
+
+// mkQuant builds a quantified formula with explicit triggers; directly nested
+// quantifiers of the same kind are merged so that triggers can mention all
+// their variables.
+func (vc *VC) mkQuant(q string, binders, vars []string, body string) string {
+	if vc.quants == nil {
+		vc.quants = map[string]*quantInfo{}
+	}
+	if qi, ok := vc.quants[body]; ok && qi.q == q {
+		binders = append(append([]string{}, binders...), qi.binders...)
+		vars = append(append([]string{}, vars...), qi.vars...)
+		body = qi.body
+	}
+	var t string
+	pats := []string(nil)
+	if q == "forall" {
+		pats = inferPatterns(vars, body)
+	}
+	if len(pats) > 0 {
+		t = "(" + q + " (" + strings.Join(binders, " ") + ") (! " + body
+		for _, p := range pats {
+			t += " :pattern " + p
+		}
+		t += "))"
+	} else {
+		t = "(" + q + " (" + strings.Join(binders, " ") + ") " + body + ")"
+	}
+	vc.quants[t] = &quantInfo{q: q, binders: binders, vars: vars, body: body}
+	return t
 }
